@@ -26,7 +26,7 @@ tail -8 "$S/.demo1.log"
 # remove demo files before the suite (the suite must pass unedited)
 ( cd "$D/demo" && find . -type f ) | while read f; do rm -f "$S/$f"; done
 echo "== existing suite with patch"
-go test -vet=off -count=1 ./... > "$S/.suite.log" 2>&1
+go test -vet=off -count=1 -timeout 90m ./... > "$S/.suite.log" 2>&1
 BAD=$(grep -E '^--- FAIL|^FAIL|^panic' "$S/.suite.log" | grep -vE 'TestAddrResolveIP|TestResolver|shadowsocks-go/conn[[:space:]]|shadowsocks-go/dns[[:space:]]|^FAIL$' )
 if [ -n "$BAD" ]; then echo "$BAD" | head; echo "VERDICT rejected: existing tests fail with the patch"; exit 1; fi
 # conn / dns packages: only the known offline failures are allowed
